@@ -117,6 +117,13 @@ def _eval(res, name, m, fn, x, v, clk, cache, opts=None):
     if exp is not None and x == v and len(v) in exp and r != exp[len(v)]:
         res.viol(ID, 'type-disagrees-with-length', name, fn, case, '%s(%r) = %r' % (fn, v, r), exp[len(v)],
                  devclass=ln, rank=rank)
+    if name == 'stdnum.mac' and base_fn == 'get_oui' and x == v and not opts:
+        # the OUI is a prefix of the address and, with get_iab(), makes up the whole address
+        hexv = ''.join(c for c in v if c.isalnum()).upper()
+        iab = _call(getattr(m, 'get_iab'), v)
+        if not (isinstance(r, str) and hexv.startswith(r.upper()) and (iab[0] != 'ok' or r.upper() + str(iab[1]).upper() == hexv)):
+            res.viol(ID, 'oui-is-not-a-prefix', name, fn, case, 'get_oui(%r) = %r, get_iab = %r' % (v, r, iab[1:2]),
+                     'OUI + IAB = address', devclass=ln, rank=rank)
     if base_fn == 'split':
         joined = ''.join(r)
         targets = {v}
